@@ -73,6 +73,7 @@ type HarnessRun struct {
 	samples     []map[string]interface{}
 	cuts        int
 	commits     int
+	decisions   int
 	known       []knownFinding
 	property    string
 	pins        map[string]string // replay: variable name -> SMT value
@@ -307,6 +308,7 @@ func (h *HarnessRun) runPath(fn *ssa.Function, prefix []int, sol *Solver) (alts 
 		h.funcs[f] = true
 	}
 	h.commits += len(ex.W.commits)
+	h.decisions += len(ex.dec)
 	h.cuts += ex.W.cuts
 	if len(h.samples) < 6 && status == "ok" {
 		h.samples = append(h.samples, map[string]interface{}{"harness": h.spec.Name, "path": strings.Join(ex.trace, ","), "result": "all obligations on this path unsat", "obligations": ex.W.oblOnPath})
@@ -356,6 +358,7 @@ type HarnessResult struct {
 	Samples     []map[string]interface{}
 	Cuts        int
 	Commits     int
+	Decisions   int
 	WallS       float64
 	Err         string
 }
@@ -373,7 +376,7 @@ func (h *HarnessRun) Result(err error) *HarnessResult {
 	r := &HarnessResult{Name: h.spec.Name, Pkg: h.spec.Pkg, Paths: h.paths, Pruned: h.pruned, Obligations: h.obligations, Discharged: h.discharged,
 		Unknowns: h.unknowns, Unsupported: h.unsupported, Reach: h.reach, Violations: h.violations,
 		Stubs: setKeys(h.stubs), SQL: setKeys(h.sqls), Funcs: setKeys(h.funcs), Bounds: setKeys(h.bounds), Samples: h.samples,
-		Cuts: h.cuts, Commits: h.commits, WallS: time.Since(h.t0).Seconds()}
+		Cuts: h.cuts, Commits: h.commits, Decisions: h.decisions, WallS: time.Since(h.t0).Seconds()}
 	if err != nil {
 		r.Err = err.Error()
 	}
